@@ -1024,15 +1024,22 @@ def inlineOpers (env : Env) : P Operator :=
     (altL [parseOp env, jsonOp env, logfmtOp env, fieldsOp, limitOp, splitOp env, timesliceOp env,
            totalOp env, whereOp env])
 
+/-- the three spellings of the percentile function name, in source order -/
+def pctTag : P Unit := altL [tag "pct", tag "percentile", tag "p"]
+
+/-- `pct.parse::<f64>()` in (0, 100): the percentile and its `to_string()`; `none` = reported -/
+def pctValue (ds : List Char) : Option (F64 × String) :=
+  let n := Value.digitsToNat ds
+  if 0 < n && n < 100 then some (F64.div (F64.ofInt n) (F64.ofInt 100), toString n) else none
+
 /-- `pct` (lang.rs:1358) -/
 def pctFn (env : Env) : P AggFn := do
-  let _ ← altL [tag "pct", tag "percentile", tag "p"]
+  pctTag
   let ds ← digit1
   let col ← reqSingleArg env.optE
-  let n := Value.digitsToNat ds
-  if 0 < n && n < 100 then
-    pure (.pct (F64.div (F64.ofInt n) (F64.ofInt 100)) (toString n) col)
-  else do
+  match pctValue ds with
+  | some (p, s) => pure (.pct p s col)
+  | none => do
     report
     pure .error
 
